@@ -136,3 +136,20 @@ fn f15_metadata_key_range() {
     let m2 = encode_json_str_to_metadatum(r#"{"-5": 1}"#.to_string(), MetadataJsonSchema::BasicConversions).unwrap();
     assert_eq!(m2.as_map().unwrap().keys().get(0).as_int().unwrap().to_str(), "-5");
 }
+#[test]
+fn f16_byron_trailing() {
+    let b = ByronAddress::from_base58("Ae2tdPwUPEZ4YjgvykNpoFeYUxoyhNj2kg8KfKWN2FizsSpLUPv68MpTVDo").unwrap();
+    let mut bytes = b.to_bytes();
+    assert!(Address::from_bytes(bytes.clone()).is_ok());
+    assert!(ByronAddress::from_bytes(bytes.clone()).is_ok());
+    bytes.push(0);
+    assert!(ByronAddress::from_bytes(bytes.clone()).is_err());
+    assert!(Address::from_bytes(bytes.clone()).is_err());
+    // embedded: kept verbatim as malformed and written back unchanged
+    let mut out = vec![0x82, 0x58, bytes.len() as u8];
+    out.extend(&bytes);
+    out.push(0x00);
+    let o = TransactionOutput::from_bytes(out.clone()).unwrap();
+    assert!(o.address().is_malformed());
+    assert_eq!(o.address().to_bytes(), bytes);
+}
